@@ -630,7 +630,7 @@ Section BlockGenProofs.
   Qed.
 
   Fixpoint bg_count (k : Z) (l : list Z) : nat :=
-    match l with [] => O | x :: r => (if x =? k then 1 else 0)%nat + bg_count k r end.
+    match l with [] => O | x :: r => Nat.add (if Z.eqb x k then 1%nat else 0%nat) (bg_count k r) end.
 
   Lemma bg_count_nodup k l : NoDup l -> (bg_count k l <= 1)%nat.
   Proof.
@@ -665,4 +665,123 @@ Section BlockGenProofs.
       unfold bg_builtin_names. apply bg_sub_filter. apply bg_bipart_sub; auto.
     - rewrite Forall_forall in *. intros t Ht. apply Hn. apply Hpool; auto.
   Qed.
+
+  (* ---------- per-sender nonce continuity ---------- *)
+  Section Nonces.
+    Variable cfg : bg_cfg.
+    Variable st0 : state.
+    (* the state update stores the transaction's nonce for its sender and leaves other senders alone *)
+    Hypothesis Hframe : forall st t st' o c, apply st t = Some (st', o) ->
+      bg_nz st' c = if c =? bt_client t then bt_nonce t else bg_nz st c.
+
+    Definition bg_ninv (g : gs) : Prop :=
+      bg_consec (bg_nz st0) (bg_txns g) /\
+      forall c, bg_nz (gs_st g) c = bg_nzfold (bg_nz st0) (bg_txns g) c.
+
+    Lemma bg_ninv_process g g1 t ok : bg_ninv g -> process cfg g t = (g1, ok) -> bg_ninv g1.
+    Proof.
+      intros [Hc Hn] Hp. destruct (bg_process_spec _ _ _ _ _ Hp) as [_ [Hf Hs]].
+      destruct ok.
+      - destruct (Hs eq_refl) as [_ [[n Hv] [st' [o [Ha [Hst [Hb _]]]]]]].
+        assert (Etx : bg_txns g1 = bg_txns g ++ [t]) by (unfold bg_txns; rewrite Hb, map_app; auto).
+        split.
+        + rewrite Etx. apply bg_consec_snoc. split; auto.
+          rewrite <- Hn. eapply bg_validate_ok_nonce; eauto.
+        + intros c. rewrite Etx, bg_nzfold_snoc, Hst. unfold bg_upd.
+          rewrite (Hframe _ _ _ _ c Ha). rewrite Hn. reflexivity.
+      - destruct (Hf eq_refl) as [Hst [Hb _]].
+        assert (Etx : bg_txns g1 = bg_txns g) by (unfold bg_txns; rewrite Hb; auto).
+        split; rewrite Etx; auto. intros c. rewrite Hst. auto.
+    Qed.
+
+    Lemma bg_ninv_add_cost g c : bg_ninv g -> bg_ninv (bg_add_cost state g c).
+    Proof. intros [H1 H2]. split; auto. Qed.
+
+    Lemma bg_iterate_ninv pool g g1 :
+      bg_ninv g -> bg_iterate state apply snonce cfg g pool = Some g1 -> bg_ninv g1.
+    Proof.
+      revert g. induction pool as [|t r IH]; simpl; intros g Hi He.
+      - inversion He; subst; auto.
+      - unfold bg_iter_step in He.
+        destruct (bt_valbig t); try discriminate.
+        destruct (bt_cost t) as [c|]; [|apply (IH g); auto].
+        destruct (bc_maxcost cfg <=? bg_wrap (ti_cost (gs_tii g) + c)); [apply (IH g); auto|].
+        destruct (process cfg g t) as [g2 ok] eqn:Ep.
+        pose proof (bg_ninv_process _ _ _ _ Hi Ep) as Hi2.
+        destruct ok; simpl in He.
+        + pose proof (bg_ninv_add_cost g2 c Hi2) as Hi3.
+          destruct (bc_maxbytes cfg <=? ti_bytes (gs_tii g2)).
+          * inversion He; subst; auto.
+          * apply (IH _ Hi3 He).
+        + apply (IH _ Hi2 He).
+    Qed.
+
+    Lemma bg_cur_loop_ninv fuel g i g1 :
+      bg_ninv g -> bg_cur_loop state apply snonce fuel cfg g i = Some g1 -> bg_ninv g1.
+    Proof.
+      revert g i. induction fuel as [|f IH]; simpl; intros g i Hi He; try discriminate.
+      destruct (nth_error (ti_current (gs_tii g)) i) as [t|] eqn:En; [|inversion He; subst; auto].
+      destruct (negb _); [inversion He; subst; auto|].
+      destruct (bt_cost t) as [c|]; [|inversion He; subst; auto].
+      destruct (bc_maxcost cfg <=? bg_wrap (ti_cost (gs_tii g) + c)); [inversion He; subst; auto|].
+      destruct (process cfg g t) as [g2 ok] eqn:Ep.
+      pose proof (bg_ninv_process _ _ _ _ Hi Ep) as Hi2.
+      destruct ok.
+      - pose proof (bg_ninv_add_cost g2 c Hi2) as Hi3.
+        destruct (bc_maxbytes cfg <=? ti_bytes (gs_tii g2)).
+        + inversion He; subst; auto.
+        + apply (IH _ _ Hi3 He).
+      - apply (IH _ _ Hi2 He).
+    Qed.
+
+    Lemma bg_self_nonce_next st :
+      bg_wrap (bg_self_nonce state snonce cfg st - bg_nz st (bc_miner cfg)) = 1.
+    Proof.
+      unfold bg_self_nonce, bg_nz. destruct (snonce st (bc_miner cfg)) as [n|].
+      - apply bg_wrap_succ_diff.
+      - reflexivity.
+    Qed.
+
+    Lemma bg_builtins_ninv bis : forall g,
+      Forall (fun b => bt_client b = bc_miner cfg) bis ->
+      bg_ninv g -> bg_ninv (bg_builtins state apply snonce cfg g bis).
+    Proof.
+      induction bis as [|b r IH]; simpl; intros g Hm Hi; auto.
+      inversion Hm; subst.
+      destruct (apply (gs_st g) (bg_set_nonce b (bg_self_nonce state snonce cfg (gs_st g)))) as [[st' o]|] eqn:Ea; [|apply IH; auto].
+      apply IH; auto. destruct Hi as [Hc Hn].
+      set (b' := bg_set_nonce b (bg_self_nonce state snonce cfg (gs_st g))) in *.
+      assert (Etx : bg_txns {| gs_st := st'; gs_tii := gs_tii g; gs_blk := gs_blk g ++ [(b', o)] |} = bg_txns g ++ [b']).
+      { unfold bg_txns; simpl. rewrite map_app. reflexivity. }
+      split.
+      - rewrite Etx. apply bg_consec_snoc. split; auto.
+        rewrite <- Hn. unfold b'; simpl. rewrite H1. apply bg_self_nonce_next.
+      - intros c. rewrite Etx, bg_nzfold_snoc. simpl. unfold bg_upd.
+        rewrite (Hframe _ _ _ _ c Ea). rewrite Hn. reflexivity.
+    Qed.
+
+    Theorem bg_nonces_consecutive pool bis b :
+      Forall (fun x => bt_client x = bc_miner cfg) bis ->
+      bg_generate state apply snonce root chg cfg st0 pool bis = GenOk b ->
+      bg_consec (bg_nz st0) (map fst (bk_txns b)).
+    Proof.
+      intros Hm. unfold bg_generate. intros H.
+      destruct (bg_sum_costs bis 0) as [bicost|]; try discriminate.
+      set (g0 := {| gs_st := st0; gs_tii := bg_tii0 bicost; gs_blk := [] |}) in *.
+      destruct (bg_iterate state apply snonce cfg g0 pool) as [g1|] eqn:E1; try discriminate.
+      destruct (bg_cur_loop state apply snonce (length pool + 2) cfg g1 0) as [g2|] eqn:E2; try discriminate.
+      inversion H; subst; clear H. simpl.
+      assert (Hi0 : bg_inv cfg st0 (fun t => In t pool) g0).
+      { constructor; simpl; auto; try constructor; try tauto.
+        - constructor.
+        - constructor. }
+      assert (Hn0 : bg_ninv g0) by (split; simpl; auto).
+      pose proof (bg_iterate_inv cfg st0 _ pool g0 g1 (fun t Ht => Ht) Hi0 E1) as Hi1.
+      pose proof (bg_cur_loop_inv cfg st0 _ _ _ _ _ Hi1 E2) as Hi2.
+      pose proof (bg_iterate_ninv _ _ _ Hn0 E1) as Hn1.
+      pose proof (bg_cur_loop_ninv _ _ _ _ Hn1 E2) as Hn2.
+      rewrite (bg_trim_id cfg st0 _ g2 Hi2).
+      apply (bg_builtins_ninv bis g2 Hm Hn2).
+    Qed.
+  End Nonces.
 End BlockGenProofs.
